@@ -12,10 +12,22 @@ structure Parsed where
   tail : Tail
   us : List (MUnit × Nat)
   fb : Option Nat
+  /-- index of the first frame over the size limit, when that is what `fb` points at -/
+  big : Option Nat := none
 
-def parseFor (side : Nat) (ext : Bool) (bs : Bytes) : Parsed :=
-  let (fs, tl) := parseStream (bs.length + 2) 0 bs []
-  { frames := fs, tail := tl, us := unitsIdx (units fs none []), fb := firstBad side ext false 0 fs }
+/-- `max > 0`: a frame announcing more than `max` bytes is an offending frame too (C05/C15). A cut
+    trailing frame over the limit is kept as a (partial) frame so that it is judged as offending —
+    the reader must refuse it from its header alone. `skip`: SkipHeaderCheck, only the limit counts. -/
+def parseFor (side : Nat) (ext : Bool) (bs : Bytes) (max : Nat := 0) (skip : Bool := false) : Parsed :=
+  let (fs0, tl0) := parseStream (bs.length + 2) 0 bs []
+  let (fs, tl) := match tl0 with
+    | .cutPayload f _ => if max > 0 ∧ f.h.len > max then (fs0 ++ [f], Tail.clean) else (fs0, tl0)
+    | _ => (fs0, tl0)
+  let fbRule := if skip then none else firstBad side ext false 0 fs
+  let fbBig := firstBig max 0 fs
+  let fb := optMin fbRule fbBig
+  { frames := fs, tail := tl, us := unitsIdx (units fs none []), fb := fb,
+    big := if fb == fbBig && fbRule != fb then fbBig else none }
 
 def isProto (e : String) : Bool := e.startsWith "proto:"
 def isIoErr (e : String) : Bool := e == "eof" || e == "ueof" || e == "fail"
@@ -49,10 +61,17 @@ def endVerdict (p : Parsed) (midUnit : Bool) (fin : String) (err : String) : Opt
       some "cut-stream-reported-as-clean-EOF"
     else none
 
+/-- With a transport that hands over its last chunk TOGETHER with a failure ("Fd"), reporting that
+    failure for a message that reaches into the last chunk is legitimate. -/
+def failOk (fin k : String) (total stop : Nat) (err : String) : Bool :=
+  let kk := natOr k
+  let lastStart := if kk == 0 || total == 0 then 0 else ((total - 1) / kk) * kk
+  fin == "Fd" && err == "fail" && stop > lastStart
+
 /-- ReadMessage oracle. -/
 def rmOracle (a : List String) (obs : String) : String :=
   match a, obs.splitOn " " with
-  | [st, hex, _, fin], [ms, err, pos] =>
+  | [st, hex, kS, fin], [ms, err, pos] =>
     let bs := hexOr hex
     let p := parseFor (natOr st) false bs
     match p.us with
@@ -76,7 +95,8 @@ def rmOracle (a : List String) (obs : String) : String :=
         (if err == "utf8" then "ok" else "bad:invalid-utf8-text-not-rejected")
       else
         let exp := msgsStr (u.inter ++ [(u.op, u.payload)])
-        if err != "nil" then s!"bad:valid-message-refused-{err}"
+        if failOk fin kS bs.length u.stop err then "ok"
+        else if err != "nil" then s!"bad:valid-message-refused-{err}"
         else if ms != exp then "bad:message-not-the-concatenation-of-fragments"
         else if natOr pos != u.stop then "bad:consumed-beyond-the-message"
         else "ok"
@@ -137,7 +157,7 @@ def judgeCtl (client : Bool) (op : Nat) (payload : Bytes) (masks : List Mask) (e
 /-- ReadData-family oracle: walks the units of the stream. -/
 def rddOracle (a : List String) (obs : String) : String :=
   match a with
-  | [st, want, hex, _, fin, _] =>
+  | [st, want, hex, kS, fin, _] =>
     let head := (obs.splitOn " masks=").headD ""
     match head.splitOn " " with
     | [res, err, pos, wr] =>
@@ -217,6 +237,7 @@ def rddOracle (a : List String) (obs : String) : String :=
             else if u.op == 1 && !wfUtf8 u.payload then
               (if err != "utf8" then "bad:invalid-utf8-text-not-rejected"
                else if wrBytes != replies'.take wrBytes.length then "bad:control-replies-differ" else "ok")
+            else if failOk fin kS bs.length u.stop err then "ok"
             else if wrBytes != replies' then "bad:control-replies-differ"
             else if err != "nil" then s!"bad:valid-message-refused-{err}"
             else if gotP != u.payload then "bad:message-not-the-concatenation-of-fragments"
@@ -238,10 +259,16 @@ open Ws Ws.Spec
     and the group reads to its end; interleaved controls go to OnIntermediate in order. -/
 def rdrOracle (a : List String) (obs : String) : String :=
   match a with
-  | st :: cfg :: hex :: _ :: fin :: script =>
+  | st :: cfg :: hex :: kS :: fin :: script =>
+    let total := (hexOr hex).length
     let c := parseCfg cfg
-    if c.skip || c.max > 0 then "skip" else
-    let p := parseFor (natOr st) c.ext (hexOr hex)
+    -- with SkipHeaderCheck the rule set is off: streams breaking a rule are judged by the model only
+    let p := parseFor (natOr st) c.ext (hexOr hex) c.max c.skip
+    let ruleBad := firstBad (natOr st) c.ext false 0 p.frames
+    if c.skip && (match ruleBad, p.big with
+        | some i, some j => decide (i < j)
+        | some _, none => true
+        | none, _ => false) then "skip" else
     match obs.splitOn " inter=" with
     | [itemsS, rest] =>
       let items := itemsS.splitOn ";"
@@ -259,7 +286,13 @@ def rdrOracle (a : List String) (obs : String) : String :=
         | 0, _ => "bad:oracle-fuel"
         | _, [] => if c.inter && interObs != msgsStr inters && !dead then "bad:intermediate-controls-differ" else "ok"
         | fuel + 1, g :: gs' =>
-          let delivered : Bytes := (g.filter (fun it => it.startsWith "r," || it.startsWith "ra,")).map
+          -- what the caller was handed up to and including the first refusal (what it does after an
+          -- error is outside the property: the connection has to be failed)
+          let refusedAt := g.findIdx? (fun it =>
+            let e := (it.splitOn ",").getLast?.getD ""
+            !it.startsWith "st," && (isProto e || e == "msb" || e == "toolarge"))
+          let gLive := match refusedAt with | some i => g.take (i + 1) | none => g
+          let delivered : Bytes := (gLive.filter (fun it => it.startsWith "r," || it.startsWith "ra,")).map
             (fun it => hexOr ((it.splitOn ",").getD 1 "-")) |>.flatten
           let errs := g.filter (fun it => !it.startsWith "st,") |>.map (fun it =>
             let f := it.splitOn ","
@@ -281,8 +314,19 @@ def rdrOracle (a : List String) (obs : String) : String :=
             let avail := payloadBefore p first u.nframes lim
             let ints := intersBefore p first u.nframes lim
             if badHere then
-              if !(errs.any fun e => isProto e || e == "msb") then "bad:offending-frame-not-rejected"
+              let sizeHere := p.big == some lim
+              -- position reported by this group's `st` (taken right after the refusal)
+              let stPos := (g.find? (fun x => x.startsWith "st,")).map fun x => natOr ((x.splitOn ",").getLast?.getD "0")
+              let hdrEnd := match p.frames[lim]? with | some f => f.start + rfcSize f.h | none => 0
+              -- nothing was attempted between the refusal and that `st`
+              let preErrs := (g.takeWhile (fun x => !x.startsWith "st,")).map (fun it =>
+                let f := it.splitOn ","
+                if it.startsWith "nf," && f.length > 2 then "nil" else f.getLast?.getD "")
+              let clean := (preErrs.filter (· != "nil")).length == 1 && preErrs.getLast?.getD "nil" != "nil"
+              if !(errs.any fun e => isProto e || e == "msb" || (sizeHere && e == "toolarge")) then
+                (if sizeHere then "bad:frame-over-MaxFrameSize-not-refused" else "bad:offending-frame-not-rejected")
               else if delivered != avail.take delivered.length then "bad:delivered-bytes-of-or-after-the-offending-frame"
+              else if sizeHere && clean && stPos.isSome && stPos != some hdrEnd then "bad:payload-of-oversized-frame-was-read"
               else go gs' us' (inters ++ ints) true fuel
             else if nfErr then "bad:valid-frame-refused"
             else if !u.complete then
@@ -299,6 +343,9 @@ def rdrOracle (a : List String) (obs : String) : String :=
               if invalidText && hasRa then
                 (if errs.contains "utf8" && delivered == u.payload.take delivered.length then go gs' us' (inters ++ ints) true fuel
                  else "bad:invalid-utf8-text-not-rejected")
+              else if errs.any (failOk fin kS total u.stop) then
+                (if delivered != u.payload.take delivered.length then "bad:delivered-bytes-not-from-the-message"
+                 else go gs' us' (inters ++ ints) true fuel)
               else if hasRa then
                 if delivered != u.payload then "bad:message-not-the-concatenation-of-fragments"
                 else if !(errs.all fun e => e == "nil" || e == "eof" || e == "noadvance") then s!"bad:valid-message-refused"
